@@ -5,12 +5,12 @@
    comparison the code computes equals a lexicographic order on a key, which is a total
    preorder (TPO).  Every law of the property follows from TPO (first theorems below), as
    does the statement about sorting.  Schemes covered by a theorem here: generic, legacy
-   openssl, ebuild/alpine (gentoo), deb.  The other schemes are not claimed by this file;
+   openssl, ebuild/alpine (gentoo), deb, the semver family (npm, golang, composer, nginx).  The other schemes are not claimed by this file;
    harness/props/C01.py evaluates the laws on them directly (a test, not a proof). *)
 From Coq Require Import List Bool Arith Ascii String NArith Permutation Sorted.
 From UV.Base Require Import Order SortUniq Res.
 From UV.Py Require Import PyStr.
-From UV.Schemes Require Import Common Generic LegacyOpenssl Gentoo GentooProofs Debian DebianProofs.
+From UV.Schemes Require Import Common Generic LegacyOpenssl Gentoo GentooProofs Debian DebianProofs Semver SemverProofs.
 Import ListNotations.
 
 (* the laws, for any comparison that is a total preorder: < is cmp = Lt, > is cmp = Gt *)
@@ -72,6 +72,11 @@ Theorem C01_deb :
     deb_compare a b = Ok (deb_cmp a b) /\ deb_ops a b = Ok (ops_of (deb_cmp a b)).
 Proof. split; [exact deb_tpo|]. intros a b Ha Hb. split; [apply deb_compare_spec; assumption|apply deb_ops_spec; assumption]. Qed.
 
+Theorem C01_semver_family :
+  TPO semver_cmp /\
+  forall a b, sv_ok a = true -> sv_ok b = true -> semver_ops a b = ops_of (semver_cmp a b).
+Proof. split; [exact semver_tpo|exact semver_ops_spec]. Qed.
+
 (* Non-vacuity: accepted versions have the shape the theorems need, and the orders are not trivial *)
 Example C01_nonvacuous :
   gok (list_ascii_of_string "1.02_alpha1_p-r3") = true /\
@@ -90,3 +95,4 @@ Print Assumptions C01_generic.
 Print Assumptions C01_legacy_openssl.
 Print Assumptions C01_gentoo_alpine.
 Print Assumptions C01_deb.
+Print Assumptions C01_semver_family.
